@@ -59,7 +59,7 @@ def parseOp1 (fields : List String) : Option Op :=
   | ["RN"] => some .routersNil
   | ["RU", r, vhs] => do
     let vs ← (splitList "," vhs).mapM parseVHost
-    pure (.addOrUpdateRouters ⟨r, vs⟩)
+    pure (.addOrUpdateRouters { name := r, vhosts := vs })
   | ["RA", r, d, rt] => (parseRoute rt).map (fun x => .addRoute r (unDom d) x)
   | ["RR", r, d] => some (.removeAllRoutes r (unDom d))
   | ["CP", c, tag, hs] => do
@@ -247,9 +247,76 @@ def drive (itemToks impl : List String) : String :=
   | _, _ => "E E bad-dump-case"
 end Dump
 
+/-! `mode <op> …`: router histories whose complete updates come from a directory (`RD`), from static JSON (`RS`) or from code (`RU`),
+then dump → reload through the real loader. Implementation output: `<results> <name@live;…> <ok|loaderr> <name@rebuilt;…>`. -/
+def parseModeOp (tok : String) : Option Op :=
+  match tok.splitOn "/" with
+  | ["RD", r, vhs] => do
+    let vs ← (splitList "," vhs).mapM parseVHost
+    pure (.addOrUpdateRouters { name := r, vhosts := vs, path := "D" })
+  | ["RS", r, vhs] => do
+    let vs ← (splitList "," vhs).mapM parseVHost
+    pure (.addOrUpdateRouters { name := r, vhosts := vs, static := vs })
+  | "RU" :: rest => parseOp1 ("RU" :: rest)
+  | "RA" :: rest => parseOp1 ("RA" :: rest)
+  | "RR" :: rest => parseOp1 ("RR" :: rest)
+  | _ => none
+
+def mode (opToks impl : List String) : String :=
+  if (impl.head?.getD "").splitOn "," |>.contains "panic" then "D V operation-panicked" else
+  match opToks.mapM parseModeOp, impl with
+  | some ops, [res, lr, load, br] =>
+    match parseObs lr, parseObs br with
+    | some ilr, some ibr =>
+      let rnames := sortStrings (dedup (ops.flatMap routerNames))
+      let s := run stdOracle ops
+      let mres := results stdOracle init ops
+      let mobs := modeObserve stdOracle rnames s
+      let mRes := if mres.isEmpty then "-" else joinWith "," (mres.map okTok)
+      let mLR := renderObs rnames (mobs.map (·.live))
+      let mLoad := if mobs.all (·.loadOk) then "ok" else "loaderr"
+      let mBR := renderObs rnames (mobs.map (fun ob => if mLoad == "ok" then ob.reb else "loaderr"))
+      let agree := res == mRes && lr == mLR && load == mLoad && br == mBR
+      let iobs : List ModeObs := (ilr.zip ibr).map (fun p => ⟨p.1.2, load == "ok", p.2.2⟩)
+      let spec := ilr.map (·.1) == ibr.map (·.1) && ilr.map (·.1) == rnames && Spec.modeHolds iobs
+      s!"{if agree then "A" else "D"} {if spec then "S" else "V"} {mRes} {mLR} {mLoad} {mBR}"
+    | _, _ => "E E bad-impl-output"
+  | _, _ => "E E bad-mode-case"
+
+/-! `rlock <P/vhs | N> <opA> <opB> <forced>`: two concurrent mutators of router `r1` (present with the given virtual hosts, or absent)
+under one schedule. Implementation output: `<resA>,<resB> <live> <rebuilt> <trace>`. The model's outputs are those of the TWO
+sequential orders (`mutators_serializable`: every schedule ends in one of them); the predicate is coherence of the observation. -/
+def rlockOutcome (s0 : State) (a b : Op) (swap : Bool) : String × String × String :=
+  let ops := if swap then [b, a] else [a, b]
+  let rs := results stdOracle s0 ops
+  let ra := (if swap then rs[1]? else rs[0]?).getD false
+  let rb := (if swap then rs[0]? else rs[1]?).getD false
+  let s := runFrom stdOracle s0 ops
+  (okTok ra ++ "," ++ okTok rb, renderRouter (liveRouters s "r1"), renderRouter (rebuildRouters stdOracle (dump s) "r1"))
+
+def rlock (initTok aTok bTok : String) (impl : List String) : String :=
+  let initOps : Option (List Op) :=
+    if initTok == "N" then some []
+    else match initTok.splitOn "/" with
+      | ["P", vhs] => ((splitList "," vhs).mapM parseVHost).map (fun vs => [Op.addOrUpdateRouters { name := "r1", vhosts := vs }])
+      | _ => none
+  match initOps, parseModeOp aTok, parseModeOp bTok, impl with
+  | some i0, some a, some b, [res, live, reb, _trace] =>
+    let s0 := run stdOracle i0
+    let o1 := rlockOutcome s0 a b false
+    let o2 := rlockOutcome s0 a b true
+    let got := (res, live, reb)
+    let agree := got == o1 || got == o2
+    let spec := live == reb && !(res.splitOn ",").contains "panic" && !(res.splitOn ",").contains "stuck"
+    let m := if got == o2 then o2 else o1
+    s!"{if agree then "A" else "D"} {if spec then "S" else "V"} {m.1} {m.2.1} {m.2.2}"
+  | _, _, _, _ => "E E bad-rlock-case"
+
 def run (caseToks impl : List String) : String :=
   match caseToks with
   | "hist" :: ops => hist ops impl
+  | "mode" :: ops => mode ops impl
+  | ["rlock", i, a, b, _] => rlock i a b impl
   | "dump" :: items => Dump.drive items impl
   | ["rm", _, hs, as] => rm hs as impl
   -- support run: lookups concurrent with updates must have seen only whole configurations
